@@ -2412,3 +2412,93 @@ func factBlock(fn *ssa.Function, f Fact) *ssa.BasicBlock {
 	}
 	return nil
 }
+
+func init() {
+	extend("C01", Rule{ID: "R01.12", Configs: "all", Run: ruleR01_12},
+		"(R01.12) bit budget of the Go literal encoder: between two drains of the 64-bit accumulator (bitLen reduced modulo 8) at most three Huffman codes are OR-ed in within one loop iteration, because a code is up to 15 bits (the limit passed to Generate, R01.2) and up to 7 bits are pending: 3*15+7 <= 64 < 4*15+7.")
+	extend("C18", Rule{ID: "R18.14", Configs: "all", Run: ruleR01_12}, "(R18.14) = R01.12 (the Go encoder is what acceleration levels below 4 run for whole blocks).")
+}
+
+func ruleR01_12(p *Program, r *Report) {
+	id := "R01.12"
+	if r.Prop == "C18" {
+		id = "R18.14"
+	}
+	r.Expect(id, 1)
+	sp := p.Pkg(deflRel)
+	maxCode := int64(15)
+	n := 0
+	for _, fn := range p.Funcs() {
+		if fn.Pkg != sp {
+			continue
+		}
+		// accumulations: x | (uint64(code) << bitLen) where code is a result of histogram.litCode
+		isLitCodeResult := func(v ssa.Value) bool {
+			for _, leaf := range p.valueSources(stripConv(v)) {
+				if ex, ok := stripConv(leaf).(*ssa.Extract); ok {
+					if c, ok := ex.Tuple.(*ssa.Call); ok && staticCalleeNamed(c, deflRel, "histogram", "litCode") {
+						return true
+					}
+				}
+			}
+			return false
+		}
+		var accs []*ssa.BinOp
+		var drains []*ssa.BinOp
+		for _, b := range fn.Blocks {
+			for _, in := range b.Instrs {
+				bo, ok := in.(*ssa.BinOp)
+				if !ok {
+					continue
+				}
+				if bo.Op == token.OR {
+					for _, side := range []ssa.Value{bo.X, bo.Y} {
+						if sh, ok := side.(*ssa.BinOp); ok && sh.Op == token.SHL && isLitCodeResult(sh.X) {
+							accs = append(accs, bo)
+						}
+					}
+				}
+				if k, isK := constInt(bo.Y); isK && ((bo.Op == token.REM && k == 8) || (bo.Op == token.AND && k == 7)) {
+					if intSize(bo.Type()) >= 4 {
+						drains = append(drains, bo)
+					}
+				}
+			}
+		}
+		if len(accs) == 0 || len(drains) == 0 {
+			continue
+		}
+		lab := newLabeler()
+		for _, d := range drains {
+			// accumulations of the same iteration: those that dominate the drain and from which the drain is
+			// reachable without passing another drain
+			cnt := 0
+			for _, a := range accs {
+				if !dominatesInstr(a, d) {
+					continue
+				}
+				reach, _, _ := PathQuery{Start: a, Target: func(x ssa.Instruction) bool { return x == ssa.Instruction(d) }, Barrier: func(x ssa.Instruction) bool {
+					for _, o := range drains {
+						if x == ssa.Instruction(o) && o != d {
+							return true
+						}
+					}
+					return false
+				}}.Find(fn)
+				if reach {
+					cnt++
+				}
+			}
+			if cnt == 0 {
+				continue
+			}
+			n++
+			key := shortFn(fn) + "|" + lab.get("codes per drain")
+			need := int64(cnt)*maxCode + 7
+			r.Check(need <= 64, id, key, p.InstrPos(d), "the codes OR-ed into the 64-bit accumulator between two drains fit beside the pending bits", itoa(cnt)+" codes of up to "+itoa(int(maxCode))+" bits plus up to 7 pending bits need "+itoa(int(need))+" bits: the top bits of a long code are shifted out and the stream is silently wrong for skewed data")
+		}
+	}
+	if n == 0 {
+		r.Undecided(id, "encoders", "-", "a Go encoder accumulates litCode results between drains", "none found")
+	}
+}
